@@ -119,6 +119,17 @@ def _value(name, dtype, default, k):
         return [1.0, 0.5, 2.25][k % 3]
     if isinstance(default, list):
         return [f"k{k}"] if k % 2 else []
+    if k % 2:
+        # dimension 14: in every second row each further field gets a non-default value that no sibling field of the row has (salted by the
+        # field's NAME), so that a value carried by the wrong attribute / column shows; the other rows keep the shared small values
+        import zlib
+        salt = zlib.crc32(name.encode()) % 997 + 1
+        if dtype == "int":
+            return 5 * salt + (k * 3 + 1) % 5
+        if dtype == "float":
+            return 10.0 * salt + 0.5 * k + 1
+        if dtype in ("str", "object") and isinstance(default, str):
+            return f"s{k}_{name}.wav"
     if dtype == "int":
         return (k * 3 + 1) % 5
     if dtype == "float":
